@@ -44,6 +44,11 @@ CHECKS = {
          "For every program of the corpus (examples, odd-syntax and build-constraint files, 1-deviation mutants, shadow family) the complete *ast.File graph (every field of every node, positions, slice backing arrays, comments, Obj/Scope), every types.Info map, every linter.Context field and the registered metadata/parameter values are hashed by reflection before and after checker runs (after every single checker for the example files; around the whole set with per-checker bisection otherwise); any difference is a write. Second leg: each program is analysed on two freshly parsed trees with the checker list in ascending and descending order and every checker must report the same diagnostics.",
          "go/types objects are compared by identity (their interiors are lazily completed by go/types itself); FileSet.Base is excluded because harness workers share one file set; package-level variables of go-critic are not fingerprinted (covered indirectly by the order leg and by C03/C04).",
          "DESIGN.md section 3, C05"),
+ "C18": ("fault_enumeration",
+         "exhaustive enumeration of fault sequences (rule files in every failure class, in every order up to a length) x failOn policy x legacy flag x group filters on the real loader, against a reference model of the stated policy",
+         "All sequences of length <=3 (<=4 thorough) over {valid A, valid B, unreadable, syntax error, DSL error, unloadable import in a type filter, empty file}, given as comma list and as glob, x failOn {unset, dsl, import, all, dsl+import, bogus, dsl+bogus, 'all,'} x legacy boolean; enable x disable lists (names, #tags, #experimental, unknown) on representative sequences; a pattern matching nothing in each position; unknown failOn without rules. Each configuration executes the real newRuleguardChecker and then analyses a file that triggers every group; the oracle is a 60-line reference model (init fails iff ...; runs(g) iff ...; diagnostics exactly those of running groups from surviving files, nothing when no file survives).",
+         "Left open because the statement does not settle them (both answers accepted, counted in evidence): the failure class of an unreadable file under failOn=dsl/import, an experimental group enabled by name only, the same valid file listed twice. The go-ruleguard engine is trusted for matching.",
+         "DESIGN.md section 3, C18"),
 }
 
 PENDING = {
